@@ -99,26 +99,51 @@ func For[V any](
 	body Seq[V],
 ) Seq[V] {
 	return func(c *co[V], k cont[V]) {
-		var loop func(skipPost bool)
-		loop = func(skipPost bool) {
-			if post != nil && !skipPost {
-				post()
+		// The loop is a trampoline: an iteration whose body completes without
+		// suspending (no Bind) reports back through `again` and is followed by the
+		// next one in the same stack frame, so the stack depth does not grow with
+		// the number of non-yielding iterations.
+		var (
+			running bool // loop() is on the stack and will see `again`
+			again   bool // the body completed synchronously: iterate once more
+			next    cont[V]
+		)
+		loop := func(skipPost bool) {
+			for {
+				if post != nil && !skipPost {
+					post()
+				}
+				if cond != nil && !cond() {
+					k(kNormal, zero[V]())
+					return
+				}
+				skipPost = false
+				running, again = true, false
+				body(c, next)
+				running = false
+				if !again {
+					// suspended by Bind (resumed later through next),
+					// or left by break / return
+					return
+				}
 			}
-			if cond == nil || cond() {
-				body(c, func(t contType, v V) {
-					switch t {
-					case kNormal, kContinue:
-						loop(false)
-					case kBreak:
-						k(kNormal, zero[V]())
-					case kReturn:
-						k(kReturn, v)
-					default:
-						panic("unreachable")
-					}
-				})
-			} else {
+		}
+		next = func(t contType, v V) {
+			switch t {
+			case kNormal, kContinue:
+				if running {
+					again = true
+				} else {
+					loop(false)
+				}
+			case kBreak:
+				running = false
 				k(kNormal, zero[V]())
+			case kReturn:
+				running = false
+				k(kReturn, v)
+			default:
+				panic("unreachable")
 			}
 		}
 		loop(true)
